@@ -62,6 +62,11 @@ theorem mem_takeWhile_true {α : Type} (p : α → Bool) : ∀ (l : List α) (a 
       · exact mem_takeWhile_true p xs a h
     · cases h
 
+theorem foldl_refundCall_eventNonce (l : List Call) (s : State) : (l.foldl refundCall s).eventNonce = s.eventNonce := by
+  induction l generalizing s with
+  | nil => rfl
+  | cons c cs ih => simp only [List.foldl_cons]; rw [ih]; rfl
+
 theorem foldl_refundCall_obsSuccess (l : List Call) (s : State) : (l.foldl refundCall s).obsSuccess = s.obsSuccess := by
   induction l generalizing s with
   | nil => rfl
